@@ -116,6 +116,18 @@ def generate(rng, tier):
         # automatic limits need at least one finite (transformed) coordinate
         if len(_finite_t(a)) == 0:
             a["lo"], a["hi"] = a["base"]
+    xdtype = "f8"
+    if not ax["log"] and rng.random() < 0.08:
+        # integer coordinates (a level, a rank number): explicit limits may still be fractional (-0.5 ... 9.5)
+        xdtype = rng.choice(["i8", "i4"])
+        k = rng.choice([1.0, 10.0, 100.0])
+        ax["pts"] = [float(round(v * k)) if math.isfinite(v) else float(round(ax["base"][0] * k)) for v in ax["pts"]]
+        ax["base"] = [ax["base"][0] * k, ax["base"][1] * k]
+        for side in ("lo", "hi"):
+            if ax[side] is not None:
+                ax[side] = _fl(math.floor(ax[side] * k) + rng.choice([0.5, 0.5, 0.25, 0.0]))
+        if ax["lo"] is not None and ax["hi"] is not None and not ax["hi"] > ax["lo"]:
+            ax["hi"] = ax["lo"] + 1.0
     layers = []
     for _ in range(rng.choice([0, 0, 1, 1, 2, 3])):
         layers.append({
@@ -151,7 +163,9 @@ def generate(rng, tier):
         "second_op": rng.choice([None, None, "sum", "mean"]),
         # an earlier call on the same objects with other contents; the caller refills the buffers in place
         "prior": rng.random() < 0.2,
-        "xdtype": "f8",  # (single-precision coordinates: tried and withdrawn -- the front-end transforms and compares them in single precision, and what "inside the range" means within float32 rounding of an edge is not something the statement settles)
+        # (single-precision coordinates were tried and withdrawn: the front-end transforms and compares them in single precision,
+        #  and what "inside the range" means within float32 rounding of an edge is not something the statement settles)
+        "xdtype": xdtype,
     }
     return case
 
@@ -367,7 +381,10 @@ def execute_large(case, stats):
     counts = np.bincount(by * res_ + bx, minlength=res_ * res_).reshape(res_, res_)
     sums = np.bincount(by * res_ + bx, weights=v, minlength=res_ * res_).reshape(res_, res_)
     old = numba.get_num_threads()
-    numba.set_num_threads(1)
+    allthreads = lg.get("threads") == "all"
+    # one thread: deterministic.  "all": a stress run with real threads for paths that are both size-gated and parallel;
+    # its record is deliberately coarse (no numbers that vary from run to run), it can show a race but never its absence
+    numba.set_num_threads(numba.config.NUMBA_NUM_THREADS if allthreads else 1)
     try:
         with np.errstate(all="ignore"):
             plot = osyris.histogram2d(osyris.Array(values=x, unit="cm", name="xq"), osyris.Array(values=y, unit="", name="yq"),
@@ -379,7 +396,14 @@ def execute_large(case, stats):
         return out
     finally:
         numba.set_num_threads(old)
-    stats.inc("probe.large_input_compiled_run")
+    stats.inc("probe.large_input_compiled_run" + ("_all_threads" if allthreads else ""))
+    if allthreads:
+        s_got = np.ma.getdata(plot.layers[0]["data"])
+        mask = np.ma.getmaskarray(plot.layers[0]["data"])
+        if np.any(mask != (counts == 0)) or not np.array_equal(np.where(mask, 0.0, s_got), sums):
+            viol.append({"class": "values", "clause": "large-all-threads", "key": {"effect": "sum", "when": "large-all-threads"},
+                         "detail": {"n": n, "threads": int(numba.config.NUMBA_NUM_THREADS), "note": "sums per bin differ from the exact reference when the kernel runs on all numba threads"}})
+        return out
     stats.inc("steps.points_binned_by_compiled_kernel", n)
     s_got = np.ma.getdata(plot.layers[0]["data"])
     m_got = np.ma.getdata(plot.layers[1]["data"])
@@ -873,8 +897,9 @@ def finalize(tier, base_seed, stats, viols):
     # ---- lengths beyond the simulator: shipped front-end + compiled kernel, one thread, exact reference
     sizes = [2 ** 20 + 37] if tier == "quick" else [2 ** 20 + 37, 2_500_003, 2 ** 22 + 5]
     nlarge = 0
-    for k, n in enumerate(sizes):
-        case = {"large": {"n": n, "res": [7, 16, 5][k % 3], "seed": core.H(base_seed, PROPERTY, "large", k) % (2 ** 31)}, "run": -1 - k, "seed": 0}
+    plan = [(n, 1) for n in sizes] + [(2 ** 20 + 37, "all")]
+    for k, (n, thr) in enumerate(plan):
+        case = {"large": {"n": n, "res": [7, 16, 5][k % 3], "seed": core.H(base_seed, PROPERTY, "large", k) % (2 ** 31), "threads": thr}, "run": -1 - k, "seed": 0}
         res = core.safe_execute(sys.modules[__name__], case, stats)
         nlarge += 1
         for v in res["violations"]:
